@@ -3,7 +3,6 @@
 -/
 import Rtcp.Spec.All
 import Rtcp.Proofs.ReadLemmas
-import Rtcp.Proofs.ParsersFraming
 
 namespace Rtcp.Proofs
 open Rtcp Rtcp.Impl Rtcp.Spec
@@ -16,37 +15,170 @@ theorem packet_parse_eq (bs : Bytes) (h : 4 ≤ bs.length) :
     Packet.parse bs = (match kindOfType (ptype bs) with
                        | some k => k.parse bs
                        | none => Packet.unknown <$> Unknown.parse bs) := by
-  sorry
+  have hlt : ¬ bs.length < 4 := by omega
+  unfold Packet.parse kindOfType
+  simp only [hlt, if_false, Read.parsePacketType_ok bs (by omega), R.ok_bind, beq_iff_eq]
+  generalize ptype bs = t
+  by_cases h1 : t = 204
+  · subst h1; rfl
+  by_cases h2 : t = 203
+  · subst h2; rfl
+  by_cases h3 : t = 201
+  · subst h3; rfl
+  by_cases h4 : t = 202
+  · subst h4; rfl
+  by_cases h5 : t = 200
+  · subst h5; rfl
+  by_cases h6 : t = 206
+  · subst h6; rfl
+  by_cases h7 : t = 205
+  · subst h7; rfl
+  simp only [h1, h2, h3, h4, h5, h6, h7, if_false]
 
 theorem packet_parse_short (bs : Bytes) (h : bs.length < 4) :
     Packet.parse bs = .err (.truncated 4 bs.length) := by
-  sorry
+  unfold Packet.parse
+  simp only [h, if_true]
+
+theorem R.map_eq_ok {ε α β : Type} {f : α → β} {x : R ε α} {b : β} (h : f <$> x = .ok b) :
+    ∃ a, x = .ok a ∧ b = f a := by
+  cases x with
+  | ok a => simp only [R.map_ok, R.ok.injEq] at h; exact ⟨a, rfl, h.symm⟩
+  | err e => simp only [R.map_err] at h; cases h
+  | panic => simp only [R.map_panic] at h; cases h
+
+theorem sdes_parse_data (bs : Bytes) (v : Sdes) (h : Sdes.parse bs = .ok v) : v.data = bs := by
+  unfold Sdes.parse at h
+  simp only [bind, R.bind, pure] at h
+  split at h <;> try cases h
+  split at h <;> try cases h
+  split at h <;> try cases h
+  split at h
+  · split at h <;> cases h
+    rfl
+  · cases h
+    rfl
+
+theorem sr_parse_data (bs v : Bytes) (h : Sr.parse bs = .ok v) : v = bs := by
+  unfold Sr.parse at h
+  simp only [bind, R.bind, pure] at h
+  repeat (split at h <;> try cases h)
+  rfl
+
+theorem rr_parse_data (bs v : Bytes) (h : Rr.parse bs = .ok v) : v = bs := by
+  unfold Rr.parse at h
+  simp only [bind, R.bind, pure] at h
+  repeat (split at h <;> try cases h)
+  rfl
+
+theorem bye_parse_data (bs v : Bytes) (h : Bye.parse bs = .ok v) : v = bs := by
+  unfold Bye.parse at h
+  simp only [bind, R.bind, pure] at h
+  repeat (split at h <;> try cases h)
+  all_goals rfl
+
+theorem app_parse_data (bs v : Bytes) (h : App.parse bs = .ok v) : v = bs := by
+  unfold App.parse at h
+  simp only [bind, R.bind, pure] at h
+  repeat (split at h <;> try cases h)
+  all_goals rfl
+
+theorem fb_parse_data (k : FbKind) (bs v : Bytes) (h : Fb.parse k bs = .ok v) : v = bs := by
+  unfold Fb.parse at h
+  simp only [bind, R.bind, pure] at h
+  repeat (split at h <;> try cases h)
+  all_goals rfl
+
+theorem unknown_parse_data (bs v : Bytes) (h : Unknown.parse bs = .ok v) : v = bs := by
+  unfold Unknown.parse at h
+  simp only [bind, R.bind, pure] at h
+  repeat (split at h <;> try cases h)
+  all_goals rfl
+
+/-- a typed parser's value has that parser's kind and holds the input -/
+theorem kind_parse_ok (k : Kind) (bs : Bytes) (p : Packet) (h : k.parse bs = .ok p) :
+    p.kind? = some k ∧ p.data = bs := by
+  cases k <;> simp only [Kind.parse] at h <;> obtain ⟨v, hv, rfl⟩ := R.map_eq_ok h <;>
+    refine ⟨rfl, ?_⟩ <;> simp only [Packet.data]
+  · exact app_parse_data bs v hv
+  · exact bye_parse_data bs v hv
+  · exact rr_parse_data bs v hv
+  · exact sdes_parse_data bs v hv
+  · exact sr_parse_data bs v hv
+  · exact fb_parse_data _ bs v hv
+  · exact fb_parse_data _ bs v hv
+
+/-- the three possible shapes of an accepted generic parse -/
+theorem packet_parse_ok_cases (bs : Bytes) (p : Packet) (h : Packet.parse bs = .ok p) :
+    4 ≤ bs.length ∧
+    ((∃ k, kindOfType (ptype bs) = some k ∧ k.parse bs = .ok p) ∨
+     (kindOfType (ptype bs) = none ∧ ∃ v, Unknown.parse bs = .ok v ∧ p = .unknown v)) := by
+  by_cases hl : bs.length < 4
+  · rw [packet_parse_short bs hl] at h; cases h
+  · have h4 : 4 ≤ bs.length := by omega
+    refine ⟨h4, ?_⟩
+    rw [packet_parse_eq bs h4] at h
+    cases hk : kindOfType (ptype bs) with
+    | some k => rw [hk] at h; exact .inl ⟨k, rfl, h⟩
+    | none =>
+      rw [hk] at h
+      obtain ⟨v, hv, rfl⟩ := R.map_eq_ok h
+      exact .inr ⟨rfl, v, hv, rfl⟩
 
 /-- an unknown packet exposes the input unchanged -/
 theorem packet_unknown_data (bs u : Bytes) (h : Packet.parse bs = .ok (.unknown u)) : u = bs := by
-  sorry
+  obtain ⟨_, ⟨k, _, hk⟩ | ⟨_, v, hv, hp⟩⟩ := packet_parse_ok_cases bs _ h
+  · have := (kind_parse_ok k bs _ hk).1
+    simp [Packet.kind?] at this
+  · cases hp
+    exact unknown_parse_data bs u hv
 
 /-- every parsed packet holds exactly the input bytes -/
 theorem packet_data (bs : Bytes) (p : Packet) (h : Packet.parse bs = .ok p) : p.data = bs := by
-  sorry
+  obtain ⟨_, ⟨k, _, hk⟩ | ⟨_, v, hv, rfl⟩⟩ := packet_parse_ok_cases bs _ h
+  · exact (kind_parse_ok k bs _ hk).2
+  · exact unknown_parse_data bs v hv
+
+/-- the variant chosen carries the type octet's kind -/
+theorem packet_kind (bs : Bytes) (p : Packet) (h : Packet.parse bs = .ok p) :
+    p.kind? = kindOfType (ptype bs) := by
+  obtain ⟨_, ⟨k, hkt, hk⟩ | ⟨hkt, v, hv, rfl⟩⟩ := packet_parse_ok_cases bs _ h
+  · rw [hkt]; exact (kind_parse_ok k bs _ hk).1
+  · rw [hkt]; rfl
 
 /-- conversion to the variant's own type returns the already-parsed value -/
 theorem tryAs_same (p : Packet) (k : Kind) (h : p.kind? = some k) : p.tryAs k = .ok p := by
-  sorry
+  cases p <;> simp only [Packet.kind?] at h <;> cases h <;> simp [Packet.tryAs, Packet.kind?]
+
+theorem kindOfType_pt (t : UInt8) (k : Kind) (h : kindOfType t = some k) : t = k.pt := by
+  unfold kindOfType at h
+  repeat (split at h; · cases h; subst_vars; rfl)
+  cases h
+
+theorem hType_ok {ε : Type} (bs : Bytes) (h : 4 ≤ bs.length) : (hType bs : R ε UInt8) = .ok (ptype bs) := by
+  unfold hType headerData
+  rw [Read.slice_ok bs 0 4 ⟨by omega, h⟩]
+  simp only [R.ok_bind]
+  rw [Read.parsePacketType_ok _ (by rw [Read.range_length _ _ _ h]; omega)]
+  simp only [ptype]
+  rw [Read.getD_range bs 0 4 1 (by omega)]
 
 /-- conversion to a different known type: a mismatch error naming both types -/
 theorem tryAs_mismatch (bs : Bytes) (p : Packet) (k k' : Kind) (hp : Packet.parse bs = .ok p)
     (h : p.kind? = some k') (hne : k' ≠ k) :
     p.tryAs k = .err (.packetTypeMismatch k'.pt k.pt) := by
-  sorry
+  have hd := packet_data bs p hp
+  have hk := packet_kind bs p hp
+  have h4 := (packet_parse_ok_cases bs p hp).1
+  rw [h] at hk
+  have hpt := kindOfType_pt _ _ hk.symm
+  have hne' : ¬ (p.kind? = some k) := by rw [h]; intro e; exact hne (Option.some.inj e)
+  have ht : (hType p.data : R ParseError UInt8) = .ok k'.pt := by rw [hd, hType_ok bs h4, hpt]
+  cases p <;> simp only [Packet.kind?] at h <;>
+    simp only [Packet.tryAs, hne', if_false, ht, R.ok_bind] <;> cases h
 
 /-- conversion of an unknown packet: exactly what the typed parser returns on the same bytes -/
 theorem tryAs_unknown (u : Bytes) (k : Kind) : (Packet.unknown u).tryAs k = k.parse u := by
-  sorry
-
-/-- the variant chosen carries the type octet's kind -/
-theorem packet_kind (bs : Bytes) (p : Packet) (h : Packet.parse bs = .ok p) :
-    p.kind? = kindOfType (ptype bs) := by
-  sorry
+  rfl
 
 end Rtcp.Proofs
